@@ -334,7 +334,7 @@ def run(chk, facts, tier, only=None):
 
     def r4():
         h = c.fn(r"value::IDLValue::annotate_type_with_depth$")
-        gets = [x for x in method_calls(h["body"], r"^get$") if "HashMap" in x.get("recv_ty", "")]
+        gets = [x for x in method_calls(h["body"], r"^get$") if re.search(r"(HashMap|BTreeMap)<", x.get("recv_ty", ""))]
         okk = len(gets) >= 1 and all("internal::Label" in x["recv_ty"] and "String" not in x["recv_ty"].split(",")[0] for x in gets)
         chk.expect(okk, "record-lookup:by-label", f"the record arm must look fields up in a map keyed by Label (identity = id), found {[x['recv_ty'][:80] for x in gets]}")
 
